@@ -26,6 +26,8 @@ P = {
          "Untaint precedes and gates the cloud request, which is exactly N − untainted ≥ 1; newest-first over all tainted nodes; no stale cached desired capacity is read for a decision within one scan.", "§4 C07"),
  "C08": ("other", "comparator normal form + collect-loop / sort-dominates-loop / bounded-accumulator recognisers",
          "The taint loop visits a complete oldest-first sorted copy of the untainted list in order and skips a node only when its write failed (modulo sort.Sort).", "§4 C08"),
+ "C16": ("other", "accept-set extraction from the validator's closure calls + propositional/linear entailment of each invariant + sibling cross-check of accessors + gate dominance + struct-tag vs documented-key table agreement",
+         "The accept set entails every stated invariant; validation gates every configuration with a fatal exit; json tags = documented keys (one recorded finding: scale_up_cool_down_timeout has no field).", "§4 C16"),
  "C17": ("other", "linear-fact entailment before every write-reaching call + struct-literal field provenance + head/tail chunking-loop recogniser",
          "No AWS write before δ ≥ 1 ∧ TargetSize+δ ≤ MaxSize; one absolute SetDesiredCapacity(TargetSize+δ); fleet request total = min = δ; every acquired id is attached in exactly one call of ≤ 20 ids.", "§4 C17"),
  "C18": ("other", "must-call-before-error-exit on the CFG with the argument checked against the chunking invariant + index-stepping loop recogniser with per-iteration accumulator + error-propagation chain",
